@@ -39,14 +39,25 @@ theorem split_leaves_no_end_symbol_on_head {ir ir' : IR} {b off nb : Nat} {added
 
 /-- `join_blocks` moves no symbol: block2's references land on block1 — on its start when
 block1 is empty (keeping their flag), on its end otherwise, which is where block2 began and,
-for `at_end` references, where it ended. -/
+for `at_end` references, where it ended.  Labels at the end of a non-empty block1 are safe because
+`are_joinable` refuses such a join (it did not before the repair recorded for C02: the hypothesis
+this theorem used to need was exactly the failing input). -/
 theorem join_moves_no_symbol {ir ir' : IR} {id1 id2 : Nat} {b1 b2 : Block}
     (h : ir.joinBlocks id1 id2 = .ok ir') (h1 : ir.block? id1 = some b1) (h2 : ir.block? id2 = some b2)
     (hne : id1 ≠ id2)
-    (hend : b2.size = 0 ∨ ∀ y ∈ ir.syms, y.ref = .block id1 → y.atEnd = false) :
+    (hend : b1.size = 0 → b2.size = 0 ∨ ∀ y ∈ ir.syms, y.ref = .block id1 → y.atEnd = false) :
     ir'.syms = ir.syms.map (joinSym b1 id2) ∧
-    ∀ y ∈ ir.syms, ∀ pos, ir.symPos y = some pos → ir'.symPos (joinSym b1 id2 y) = some pos :=
-  ⟨(joinBlocks_core h h1 h2).2.1, fun y hy pos hp => joinBlocks_symPos h h1 h2 hne hend y hy pos hp⟩
+    ∀ y ∈ ir.syms, ∀ pos, ir.symPos y = some pos → ir'.symPos (joinSym b1 id2 y) = some pos := by
+  -- when block1 is not empty, `are_joinable` itself refuses to bury a label that stands at its end
+  have hend' : b2.size = 0 ∨ ∀ y ∈ ir.syms, y.ref = .block id1 → y.atEnd = false := by
+    by_cases hz : b1.size = 0
+    · exact hend hz
+    · have e1 : b1.id = id1 := findB_id h1
+      rcases notJoinable_none_end (joinBlocks_core h h1 h2).1 with h0 | h0 | h0
+      · exact absurd h0 hz
+      · exact Or.inl h0
+      · exact Or.inr (e1 ▸ h0)
+  exact ⟨(joinBlocks_core h h1 h2).2.1, fun y hy pos hp => joinBlocks_symPos h h1 h2 hne hend' y hy pos hp⟩
 
 /-- `remove_block`: the references of a removed block go to the fresh proxy
 (`retarget_to_proxy`), else the start of the next block, else the end of the previous block;
